@@ -97,6 +97,40 @@ func runtimeOverlay(dir string) (map[string]string, error) {
 	if err != nil {
 		return nil, err
 	}
+	// When more than 256 goroutines are runnable at once (a burst of a few
+	// hundred clients), the P's local run queue overflows: half of it moves to
+	// the global queue, which is looked at every 61st scheduling round. Both the
+	// moment of the overflow and that phase count goroutines of the runtime
+	// itself, which wake up at real-time instants, so the order in which the
+	// simulated goroutines ran differed between identical runs on a loaded
+	// machine (3 of 3000 C04b seeds). A local queue of 4096 entries (see
+	// runtime2.go below) keeps the order plain FIFO; should it ever overflow,
+	// the batch is built in a static array, not in an 16 KiB stack frame.
+	s, err = mustReplace(s, "\tvar batch [len(pp.runq)/2 + 1]*g\n", "\tbatch := &simRunqBatch\n", "runq batch 1")
+	if err != nil {
+		return nil, err
+	}
+	s, err = mustReplace(s, "\t\tbatch[i] = pp.runq[(h+i)%uint32(len(pp.runq))].ptr()\n", "\t\tbatch[i] = pp.runq[(h+i)%uint32(len(pp.runq))]\n", "runq batch 2")
+	if err != nil {
+		return nil, err
+	}
+	s, err = mustReplace(s, "\tbatch[n] = gp\n", "\tbatch[n].set(gp)\n", "runq batch 3")
+	if err != nil {
+		return nil, err
+	}
+	s, err = mustReplace(s, "\t\tbatch[i].schedlink.set(batch[i+1])\n", "\t\tbatch[i].ptr().schedlink.set(batch[i+1].ptr())\n", "runq batch 4")
+	if err != nil {
+		return nil, err
+	}
+	s, err = mustReplace(s, "\tq := gQueue{batch[0].guintptr(), batch[n].guintptr(), int32(n + 1)}\n", "\tq := gQueue{batch[0], batch[n], int32(n + 1)}\n", "runq batch 5")
+	if err != nil {
+		return nil, err
+	}
+	s, err = mustReplace(s, "func runqgrab(pp *p, batch *[256]guintptr,", "func runqgrab(pp *p, batch *[4096]guintptr,", "runqgrab signature")
+	if err != nil {
+		return nil, err
+	}
+	s += "\nvar simRunqBatch [len(p{}.runq)/2 + 1]guintptr\n"
 	if err := os.WriteFile(filepath.Join(od, "proc.go"), []byte(s), 0o644); err != nil {
 		return nil, err
 	}
@@ -144,6 +178,10 @@ func runtimeOverlay(dir string) (map[string]string, error) {
 		return nil, err
 	}
 	s, err = mustReplace(string(b), "\twaitReasonSynctestSelect:        true,\n}", "\twaitReasonSynctestSelect:        true,\n\twaitReasonSyncMutexLock:         true,\n\twaitReasonSyncRWMutexRLock:      true,\n\twaitReasonSyncRWMutexLock:       true,\n}", "mutex wait is idle")
+	if err != nil {
+		return nil, err
+	}
+	s, err = mustReplace(s, "\trunq     [256]guintptr\n", "\trunq     [4096]guintptr\n", "local run queue size")
 	if err != nil {
 		return nil, err
 	}
